@@ -83,7 +83,8 @@ inductive FloatRepr where
 inductive PyConst where
   | str (s : Str)
   | int (n : Int)
-  | float (r : FloatRepr)
+  /-- a float: the text `repr` prints for it and its 64 bits (IEEE-754 binary64) -/
+  | float (r : FloatRepr) (bits : Nat)
   | bool (b : Bool)
   /-- `None`, bytes, complex, Ellipsis, tuples … (by the name of the Python type) -/
   | other (tyName : String)
@@ -133,8 +134,8 @@ def renderStrL (tbl : List (Char × Str)) (s : Str) : Str := '"' :: (renderBody 
 def renderConst : PyConst → Except RErr (Str × CTy)
   | .str s => .ok (renderStrL pyTable s, .string)
   | .int n => .ok (renderInt n, .int)
-  | .float (.finite neg ip fp ex) => .ok (renderFloat neg ip fp ex, .double)
-  | .float _ => .error .nonFinite
+  | .float (.finite neg ip fp ex) _ => .ok (renderFloat neg ip fp ex, .double)
+  | .float _ _ => .error .nonFinite
   | .bool b => .ok (if b then "true".toList else "false".toList, .bool)
   | .other t => .error (.unsupported t)
 
